@@ -230,7 +230,9 @@ def precedences(prog):
                     else:
                         la = [w for w in wa if f.is_loop_block(w[1])]
                         lb = [w for w in wb if f.is_loop_block(w[1])]
-                        if la and lb and all(_before_iter(f, x, y, heads) for x in la for y in lb):
+                        # (per-iteration order only between parameter-rooted items: "local" is a catch-all that merges with
+                        # its neighbour when two writes are combined into one buffer — benign R11/edit_8)
+                        if "local" not in (A, B) and la and lb and all(_before_iter(f, x, y, heads) for x in la for y in lb):
                             out[(fname, h + "@iter", A, B)] = (names[A], names[B], la[0][3], lb[0][3])
     return out
 
@@ -248,6 +250,18 @@ def obligations(prog):
             continue          # a static helper was renamed / inlined: its callers' transcripts carry the items; the floor decides
         oid = "R-ORD:%s:%s:%s<%s" % (fname, h.replace(" ", ""), A, B)
         text = "in the transcript absorbed into %s, %s must be hashed before %s" % (h, ent.get("first_name", A), ent.get("then_name", B))
+        # items are named by parameter position (survives renames); when the parameters of a static function were
+        # reordered the recorded *names* still identify them: translate positions through the names
+        def remap(key, recorded):
+            parts = []
+            for comp_key, comp_rec in zip(key.split("+"), (recorded or key).split("+")):
+                m2 = re.match(r"param\d+\((\w+)\)", comp_rec)
+                if m2 and m2.group(1) in f.param_index:
+                    parts.append("param%d" % f.param_index[m2.group(1)])      # where the parameter of that name sits now
+                else:
+                    parts.append(comp_key)
+            return "+".join(sorted(parts))
+        A, B = remap(A, ent.get("first_name")), remap(B, ent.get("then_name"))
         k = (fname, h, A, B)
         if k in cur:
             obs.append(Obligation("R-ORD", oid, cur[k][2], fname, text, True, "%s at %s precedes %s at %s" % (cur[k][0], cur[k][2], cur[k][1], cur[k][3])))
